@@ -49,3 +49,67 @@ def h_never_crashes_on_bracket_text(s: str) -> bool:
 for _f in (h_indexed_name_round_trip, h_scalar_name_is_index_zero, h_never_crashes_on_bracket_text):
     _f.encodes = [EBLIFParser.get_port_name_and_index, EBLIFComposer.find_connected_wire_info]
     _f.bounds = {"max_len": L, "alphabet": "aB9_[]:", "index": "0..120"}
+
+
+class _Sink:
+    def __init__(self):
+        self.parts = []
+
+    def write(self, s):
+        self.parts.append(s)
+
+
+def _read_back(text):
+    """reference reader of the per-instance lines of the EBLIF format: '.attr K V', '.param K V', '.cname N'"""
+    attr, param, cname = {}, {}, []
+    for line in text.split("\n"):
+        tk = line.split(" ")
+        if tk[0] == ".attr" and len(tk) == 3:
+            attr[tk[1]] = tk[2]
+        elif tk[0] == ".param" and len(tk) == 3:
+            param[tk[1]] = tk[2]
+        elif tk[0] == ".cname" and len(tk) == 2:
+            cname.append(tk[1])
+        elif line != "":
+            return None
+    return attr, param, cname
+
+
+RXV = re.compile("[aB9_\\[\\]:\"]{1,%d}" % (2 if QUICK else 3))
+
+
+def h_instance_attr_param_cname_lines_all_written(has_attr: bool, has_param: bool, n_attr: int, n_param: int,
+                                                  write_cname: bool, v1: str, v2: str) -> bool:
+    """
+    pre: 0 <= n_attr <= 2 and 0 <= n_param <= 2
+    pre: RXV.fullmatch(v1) and RXV.fullmatch(v2)
+    pre: True  # EXCLUSIONS
+    post: _ == True
+    """
+    # what the reader stored for '.attr' / '.param' / '.cname' lines of an instance (dict-valued data, any mix of the
+    # three, zero to two entries each) is written back line by line: a reference reader of the format recovers exactly
+    # the same dictionaries and the name
+    import spydrnet as sdn
+    inst = sdn.Instance()
+    inst.name = "i0"
+    attr = dict(list({"A1": v1, "A2": v2}.items())[:n_attr])
+    param = dict(list({"P1": v2, "P2": v1}.items())[:n_param])
+    if has_attr:
+        inst["EBLIF.attr"] = attr
+    if has_param:
+        inst["EBLIF.param"] = param
+    c = EBLIFComposer.__new__(EBLIFComposer)
+    c.write_cname = write_cname
+    c.open_file = _Sink()
+    c.find_and_write_additional_instance_info(inst)
+    got = _read_back("".join(c.open_file.parts))
+    if got is None:
+        return False
+    return got == (attr if has_attr else {}, param if has_param else {}, ["i0"] if write_cname else [])
+
+
+h_instance_attr_param_cname_lines_all_written.encodes = [EBLIFComposer.find_and_write_additional_instance_info,
+                                                         EBLIFComposer.write_out]
+h_instance_attr_param_cname_lines_all_written.bounds = {
+    "entries": "0..2 attributes and 0..2 parameters (concrete keys A1,A2,P1,P2), each table present or absent",
+    "values": "symbolic strings over 'aB9_[]:\"' up to length %d" % (2 if QUICK else 3), "cname": "on or off"}
